@@ -484,7 +484,7 @@ func main() {
 	}
 	r := mc.NewRun("C09")
 	bound := mc.Pick(r, 2, 3)
-	r.Rule(fmt.Sprintf("E2 preemption-bounded DFS (bounds 0..%d, iterated) over all interleavings of 2-3 validator calls sharing one Options value, scheduling point before every statement of verify/verify.go and gcetcbendorsement/sevvalidate.go and at the shared getter; 11 scenarios, one single-threaded worker process per scenario; states = distinct (pc vector, shared Options.SNP.Measurement); non-trivial = distinct schedules with at least one preemption in which two calls were simultaneously inside the validator", bound))
+	r.Rule(fmt.Sprintf("E2 preemption-bounded DFS (bounds 0..%d, iterated) over all interleavings of 2-4 validator calls sharing an Options value, a closure, an endorsement or caller buffers, scheduling point before every statement of verify/verify.go and gcetcbendorsement/{sevvalidate,tdxvalidate,sevpolicy,tdxpolicy}.go, at lock/once/wait-group operations (blocking) and at the shared getter; %d scenarios, one single-threaded worker process per scenario; every call must return its isolated result and the shared Options must read afterwards as configured; states = distinct (pc vector, shared state rendering); non-trivial = distinct schedules with at least one preemption in which two calls were simultaneously inside the validator", bound, len(scenarios())))
 	r.Assume("memory-model effects below statement granularity are left to the separate free-running -race pass (./check C09 thorough runs it; supplementary, not deciding)")
 	f := buildFixture("c09")
 	// Isolation results are part of the scenario table; check them once sequentially (non-vacuity).
